@@ -59,6 +59,11 @@ class PlaceNotationGenerator(RowGenerator):
 
         self._generating_call_pn: List[Places] = []
 
+    def reset(self) -> None:
+        """Reset the row generator, also forgetting any call that was part-way through."""
+        super().reset()
+        self._generating_call_pn = []
+
     def summary_string(self) -> str:
         """Returns a short string summarising the RowGenerator."""
         return f"place notation '{self.method_pn_string}'"
